@@ -1,110 +1,358 @@
-"""The numeric limits the text parsers of /repo compare against (M-Fields, property C18).
+"""Every bound the text parsers of /repo test on a numeric token, per field of M-Fields (property C18).
 
-Every row is (field name of lean/ExaModel/Model/Fields.lean, largest value the parser lets through),
-read from the constants the parser functions use.  `Props/C18.lean` proves the rows against the
-RFC limits of the model (`parser_constants_*`), so editing a constant in /repo changes a proof
-obligation.  Constants that are local variables or literals inside a function body are read with
-`ast` from the function source."""
+For each `Field` of lean/ExaModel/Model/Fields.lean one row `(name, lo, hi)`: the inclusive range of
+plain decimal values the parser lets through for that field (in the text template the sweep of
+harness/props/C18.py uses).  `Props/C18.lean` proves `accepts f v <-> 0 <= v /\\ fits f v` from these
+rows, so a bound that changes in /repo changes a proof obligation.
+
+How a row is obtained (this is the translation, nothing is typed in by hand but WHERE to look):
+
+* `Cmp(function, 'text of the comparison', kind, 'expression of the bound')` — the function's source
+  is parsed with `ast`; a `Compare` node whose `ast.unparse` is exactly that text must exist (a bound
+  that disappears, or whose operator or operands change, is a TRANSLATOR ERROR = broken obligation);
+  the bound expression is evaluated in the function's module (so the value of a constant is the
+  value in the source now).  kind: `refuse>` (x > C refuses: hi = C), `refuse>=` (hi = C - 1),
+  `accept<` (hi = C - 1), `accept<=` (hi = C), `refuse<0` (lo = 0), `accept0<=` (lo = 0).
+* `Has(function, 'text')` — a call / expression with that text must exist in the function
+  (`value.isdigit()`: no sign gets through, lo = 0; `_sendable('community', len(communities))`: the
+  length check is wired to this keyword).
+* `Builtin(reason)` — the bound is enforced by the C library / interpreter (`socket.inet_pton`,
+  `bytes([n])`), there is no comparison in the parser source to read: the range is measured by
+  probing (4 octet fields).
+* hi of a row = min of its upper evidences, lo = max of its lower evidences.
+
+Every row is then cross-checked against the LIVE parser function (called directly, with a real
+`Tokeniser`) at lo - 1, lo, hi, hi + 1: the reading of the source and the behaviour must agree.
+"""
 
 from __future__ import annotations
 
 import ast
 import inspect
+import struct
 import textwrap
+from dataclasses import dataclass
+from typing import Any, Callable
 
 
-def _const_in(func, name: str) -> int:
-    """Value of the assignment `name = <int expr>` inside a function body."""
-    tree = ast.parse(textwrap.dedent(inspect.getsource(func)))
-    for node in ast.walk(tree):
-        if isinstance(node, ast.Assign) and len(node.targets) == 1 and getattr(node.targets[0], 'id', None) == name:
-            return int(ast.literal_eval(node.value))
-    raise RuntimeError(f'{name} not found in {func.__name__}')
+class Translator(Exception):
+    pass
+
+
+_TREES: dict[Any, ast.AST] = {}
+
+
+def _tree(func) -> ast.AST:
+    key = getattr(func, '__func__', func)
+    if key not in _TREES:
+        _TREES[key] = ast.parse(textwrap.dedent(inspect.getsource(func)))
+    return _TREES[key]
+
+
+def _globals(func) -> dict:
+    f = getattr(func, '__func__', func)
+    return dict(f.__globals__)
+
+
+def _local_consts(func) -> dict:
+    """NAME = <literal expression> assignments inside the function (AIGP_MAX, maximum is handled apart)."""
+    out = {}
+    for node in ast.walk(_tree(func)):
+        if isinstance(node, ast.Assign) and len(node.targets) == 1 and isinstance(node.targets[0], ast.Name):
+            try:
+                out.setdefault(node.targets[0].id, ast.literal_eval(node.value))
+            except (ValueError, SyntaxError):
+                pass
+    return out
+
+
+@dataclass
+class Cmp:
+    func: Any
+    text: str
+    kind: str
+    bound: str | None = None
+    extra: dict | None = None
+
+    def value(self) -> tuple[str, int]:
+        texts = {ast.unparse(n) for n in ast.walk(_tree(self.func)) if isinstance(n, ast.Compare)}
+        if self.text not in texts:
+            raise Translator(f'{self.func.__qualname__}: comparison `{self.text}` is gone (have: {sorted(texts)})')
+        if self.kind in ('refuse<0', 'accept0<='):
+            return 'lo', 0
+        env = _globals(self.func)
+        env.update(_local_consts(self.func))
+        env.update(self.extra or {})
+        c = int(eval(compile(ast.parse(self.bound, mode='eval'), '<bound>', 'eval'), env))  # noqa: S307 — an expression of the repo's own source
+        return 'hi', {'refuse>': c, 'refuse>=': c - 1, 'accept<': c - 1, 'accept<=': c}[self.kind]
+
+    def origin(self) -> str:
+        return f'{self.func.__qualname__}: {self.text}'
+
+
+@dataclass
+class Has:
+    func: Any
+    text: str
+    lo: bool = False  # the expression is what keeps a sign out (isdigit and friends)
+
+    def value(self) -> tuple[str, int] | None:
+        texts = {ast.unparse(n) for n in ast.walk(_tree(self.func)) if isinstance(n, (ast.Call, ast.Compare, ast.Assign, ast.Attribute))}
+        if self.text not in texts:
+            raise Translator(f'{self.func.__qualname__}: `{self.text}` is gone')
+        return ('lo', 0) if self.lo else None
+
+    def origin(self) -> str:
+        return f'{self.func.__qualname__}: {self.text}'
+
+
+@dataclass
+class Builtin:
+    reason: str
+    lo: int
+    hi: int
+
+    def origin(self) -> str:
+        return f'builtin: {self.reason}'
+
+
+REFUSAL = (ValueError, OSError, IndexError, struct.error)
 
 
 def generate() -> dict[str, str]:
-    from exabgp.bgp.message.open.asn import ASN, AS_TRANS
+    from exabgp.bgp.message.open.asn import AS_TRANS, ASN
+    from exabgp.bgp.message.open.capability.asn4 import ASN4
     from exabgp.bgp.message.update.attribute.aspath import ASPath
-    from exabgp.bgp.message.update.attribute.community.initial.community import Community
     from exabgp.bgp.message.update.attribute.community.large.community import LargeCommunity
+    from exabgp.bgp.message.update.attribute.localpref import LocalPreference
+    from exabgp.bgp.message.update.attribute.med import MED
     from exabgp.bgp.message.update.nlri import flow as nflow
-    from exabgp.bgp.message.update.nlri.qualifier import Labels
-    from exabgp.configuration.flow import parser as fparser
-    from exabgp.configuration.l2vpn import parser as vparser
-    from exabgp.configuration.static import parser as sparser
-    from exabgp.protocol.family import AFI
+    from exabgp.configuration.core.parser import Tokeniser
+    from exabgp.configuration.flow import parser as fp
+    from exabgp.configuration.l2vpn import parser as vp
+    from exabgp.configuration.static import mpls
+    from exabgp.configuration.static import parser as sp
+    from exabgp.protocol.ip.netmask import NetMask
+    from exabgp.protocol.resource import Resource
 
-    rows: list[tuple[str, int]] = []
+    def tok(*words: str):
+        t = Tokeniser()
+        t.replenish(list(words))
+        return t
 
-    def row(name: str, value: int) -> None:
-        rows.append((name, int(value)))
+    def run(thunk: Callable[[], Any]) -> bool:
+        try:
+            r = thunk()
+            if inspect.isgenerator(r):
+                r = list(r)
+                if not r:
+                    return False
+            return True
+        except REFUSAL:
+            return False
 
-    # AS numbers: ASN.from_string refuses above MAX_4BYTE
-    row('asPathAsn4', ASN.MAX_4BYTE)
-    row('asPathAsn2', ASN.MAX_4BYTE)
-    row('aggregatorAsn4', ASN.MAX_4BYTE)
-    row('aggregatorAsn2', ASN.MAX_4BYTE)
-    # communities: the single-number form is checked against Community.MAX
-    row('communityPlain', Community.MAX)
-    # labels
-    row('label', Labels.MAX)
-    row('labelInner', Labels.MAX)
-    # AIGP (local constant of the parser function)
-    row('aigp', _const_in(sparser.aigp, 'AIGP_MAX'))
-    # extended communities: struct letters of _ENCODE against _SIZE_B/_H/_L
-    size = {'B': sparser._SIZE_B, 'H': sparser._SIZE_H, 'L': sparser._SIZE_L}
-    enc = sparser._ENCODE
-    assert enc['target'] == 'HL' and enc['target4'] == 'LH' and enc['origin'] == 'HL' and enc['origin4'] == 'LH', enc
-    assert enc['l2info'] == 'BBHH', enc
-    row('extAdmin', size[enc['target4'][0]])
-    row('extLocalA16', size[enc['target'][1]])
-    row('extLocalA32', size[enc['target4'][1]])
-    row('l2infoEncaps', size[enc['l2info'][0]])
-    row('l2infoControl', size[enc['l2info'][1]])
-    row('l2infoMtu', size[enc['l2info'][2]])
-    row('l2infoPref', size[enc['l2info'][3]])
-    row('extIpOctet', sparser._SIZE_B)
-    # prefix lengths
-    row('mask4', AFI.ipv4.mask())
-    row('mask6', AFI.ipv6.mask())
-    # VPLS
-    row('vplsEndpoint', vparser.VPLS_PARAM_MAX)
-    row('vplsOffset', vparser.VPLS_PARAM_MAX)
-    row('vplsSize', vparser.VPLS_PARAM_MAX)
-    row('vplsBase', getattr(vparser, 'VPLS_LABEL_MAX', vparser.VPLS_PARAM_MAX))
-    # FlowSpec
-    row('flowPacketLength', nflow.MAX_PACKET_LENGTH)
-    row('flowDscp', nflow.MAX_DSCP_VALUE)
-    row('flowTrafficClass', nflow.MAX_TRAFFIC_CLASS)
-    row('flowLabel', nflow.MAX_FLOW_LABEL)
-    row('markDscp', fparser.DSCP_MAX_VALUE)
-    row('redirectAdmin', ASN.MAX_4BYTE)
-    row('redirectLocalA16', pow(2, fparser.LOCAL_ADMIN_32_BITS) - 1)
-    row('redirectLocalA32', pow(2, fparser.LOCAL_ADMIN_16_BITS) - 1)
+    isdigit_value = lambda f: Has(f, 'value.isdigit()', lo=True)  # noqa: E731
+    asn_hi = Cmp(ASN.from_string, 'as_number > cls.MAX_4BYTE', 'refuse>', 'cls.MAX_4BYTE', {'cls': ASN})
+    asn_lo = Has(ASN.from_string, '_decimal(value)', lo=True)
+    enc = sp._ENCODE
+
+    def ext(letter_of: tuple[str, int]):
+        """The bound `_encode` applies to a component: by the struct letter of `_ENCODE[form][index]`."""
+        form, index = letter_of
+        letter = enc[form][index]
+        cmp_text = {'B': 'value > _SIZE_B', 'H': 'value > _SIZE_H', 'L': 'value > _SIZE_L'}[letter]
+        sel_text = {'B': "size == 'B'", 'H': "size == 'H'", 'L': "size in ('L', 'f')"}[letter]
+        return [Cmp(sp._encode, cmp_text, 'refuse>', {'B': '_SIZE_B', 'H': '_SIZE_H', 'L': '_SIZE_L'}[letter]), Has(sp._encode, sel_text), Has(sp._digit, 'string.isdigit()', lo=True)]
+
+    # the forms `_encode` switches between: a number above _SIZE_H is the four-octet AS form, a dotted one the IPv4 form
+    if enc['target'] != 'HL' or enc['target-asn4'] != 'LH' or enc['target4'] != 'LH' or enc['l2info'] != 'BBHH':
+        raise Translator(f'_ENCODE changed: {enc}')
+    ext_switch = Cmp(sp._encode, 'components[0] > _SIZE_H', 'refuse>', '_SIZE_H')
+    ext_switch.value()
+
+    def flow(klass, conv_evidence: list):
+        return [Cmp(fp._generic_condition, '0 <= number < 1 << 8 * max(klass.VALUE_SIZES)', 'accept<', '1 << 8 * max(klass.VALUE_SIZES)', {'klass': klass}), Cmp(fp._generic_condition, '0 <= number < 1 << 8 * max(klass.VALUE_SIZES)', 'accept0<=')] + conv_evidence
+
+    resource = [Cmp(Resource._value, '0 <= value <= RESOURCE_VALUE_MAX', 'accept<=', 'RESOURCE_VALUE_MAX')]
+
+    def netmask_max(afi_name: str) -> int:
+        """`maximum = N` in the branch `afi == AFI.<name>` of NetMask.make_netmask."""
+        for node in ast.walk(_tree(NetMask.make_netmask)):
+            if isinstance(node, ast.If) and ast.unparse(node.test) == f'afi == AFI.{afi_name}':
+                for st in node.body:
+                    if isinstance(st, ast.Assign) and ast.unparse(st.targets[0]) == 'maximum':
+                        return int(ast.literal_eval(st.value))
+        raise Translator(f'NetMask.make_netmask: no `maximum = …` under afi == AFI.{afi_name}')
+
+    def mask(afi_name: str):
+        m = netmask_max(afi_name)
+        return [Cmp(NetMask.make_netmask, 'value > maximum', 'refuse>', 'maximum', {'maximum': m}), Cmp(NetMask.make_netmask, 'value < 0', 'refuse<0'), Has(sp.prefix, 'mask_str.isdigit()', lo=True)]
+
+    def prefix_bits(func, call_text: str) -> int:
+        v = Has(func, call_text)
+        v.value()
+        return int(call_text.split(',')[1].strip(' )'))
+
+    def flow_mask(call_text: str):
+        bits = prefix_bits(fp.destination, call_text)
+        prefix_bits(fp.source, call_text)
+        return [Has(fp.destination, call_text), Cmp(fp._prefix_bounds, '0 <= netmask <= bits', 'accept<=', 'bits', {'bits': bits}), Cmp(fp._prefix_bounds, '0 <= netmask <= bits', 'accept0<=')]
+
+    # list lengths: the parser hands the byte length to _sendable; unit = bytes one element adds to the attribute
+    sendable = Cmp(sp._sendable, 'size > ATTRIBUTE_VALUE_MAX', 'refuse>', 'ATTRIBUTE_VALUE_MAX')
+    value_max = sendable.value()[1]
+
+    def unit_of(parse: Callable[[int], Any]) -> int:
+        return len(parse(2)) - len(parse(1))
+
+    units = {
+        'attrLen': unit_of(lambda n: sp.attribute(tok('[', '0x99', '0xc0', '0x' + '00' * n, ']'))),
+        'communitiesCount': unit_of(lambda n: sp.community(tok('[', *[f'1:{i}' for i in range(n)], ']'))),
+        'largeCommunitiesCount': unit_of(lambda n: sp.large_community(tok('[', *[f'1:2:{i}' for i in range(n)], ']'))),
+        'extCommunitiesCount': unit_of(lambda n: sp.extended_community(tok('[', *[f'target:1:{i}' for i in range(n)], ']'))),
+        'clusterCount': unit_of(lambda n: sp.cluster_list(tok('[', *[f'10.0.0.{i}' for i in range(n)], ']'))),
+    }
+    count_call = {
+        'attrLen': Has(sp.attribute, "_sendable('attribute', len(data_bytes))"),
+        'communitiesCount': Has(sp.community, "_sendable('community', len(communities))"),
+        'largeCommunitiesCount': Has(sp.large_community, "_sendable('large-community', len(large_communities))"),
+        'extCommunitiesCount': Has(sp.extended_community, "_sendable('extended-community', len(communities))"),
+        'clusterCount': Has(sp.cluster_list, "_sendable('cluster-list', len(clusterids) * IPv4.BYTES)"),
+    }
+
+    rd = mpls.route_distinguisher
+    rows: list[tuple[str, list, Callable[[int], bool] | None]] = [
+        ('asPathAsn4', [asn_hi, asn_lo], lambda v: run(lambda: sp.as_path(tok('[', '64512', str(v), '64513', ']')))),
+        ('asPathAsn2', [asn_hi, asn_lo], lambda v: run(lambda: sp.as_path(tok('[', '64512', str(v), '64513', ']')))),
+        ('aggregatorAsn4', [asn_hi, asn_lo], lambda v: run(lambda: sp.aggregator(tok('(', f'{v}:1.2.3.4', ')')))),
+        ('aggregatorAsn2', [asn_hi, asn_lo], lambda v: run(lambda: sp.aggregator(tok('(', f'{v}:1.2.3.4', ')')))),
+        ('aggregatorOctet', [Builtin('RouterID -> socket.inet_pton', 0, 255)], lambda v: run(lambda: sp.aggregator(tok('(', f'65000:1.2.3.{v}', ')')))),
+        ('originatorOctet', [Builtin('OriginatorID.from_string -> socket.inet_pton', 0, 255), Has(sp.originator_id, '_.isdigit()', lo=True)], lambda v: run(lambda: sp.originator_id(tok(f'1.2.3.{v}')))),
+        ('clusterOctet', [Builtin('ClusterID.from_string -> socket.inet_pton', 0, 255)], lambda v: run(lambda: sp.cluster_list(tok('[', f'1.2.3.{v}', ']')))),
+        ('communityHigh', [Cmp(sp._community, 'prefix_int > _SIZE_H', 'refuse>', '_SIZE_H'), Has(sp._community, 'prefix.isdigit()', lo=True)], lambda v: run(lambda: sp._community(f'{v}:1'))),
+        ('communityLow', [Cmp(sp._community, 'suffix_int > _SIZE_H', 'refuse>', '_SIZE_H'), Has(sp._community, 'suffix.isdigit()', lo=True)], lambda v: run(lambda: sp._community(f'1:{v}'))),
+        ('communityPlain', [Cmp(sp._community, 'number > Community.MAX', 'refuse>', 'Community.MAX'), isdigit_value(sp._community)], lambda v: run(lambda: sp._community(f'{v}'))),
+        ('largeGlobal', [Cmp(sp._large_community, 'i > _SIZE_L', 'refuse>', '_SIZE_L'), Has(sp._large_community, 'c.isdigit()', lo=True)], lambda v: run(lambda: sp._large_community(f'{v}:1:1'))),
+        ('largeLocal1', [Cmp(sp._large_community, 'i > _SIZE_L', 'refuse>', '_SIZE_L'), Has(sp._large_community, 'c.isdigit()', lo=True)], lambda v: run(lambda: sp._large_community(f'1:{v}:1'))),
+        ('largeLocal2', [Cmp(sp._large_community, 'i > _SIZE_L', 'refuse>', '_SIZE_L'), Has(sp._large_community, 'c.isdigit()', lo=True)], lambda v: run(lambda: sp._large_community(f'1:1:{v}'))),
+        ('extAdmin', ext(('target-asn4', 0)) + [Has(sp._encode, 'components[0] > _SIZE_H')], lambda v: run(lambda: sp._extended_community(f'target:{v}:1'))),
+        ('extLocalA16', ext(('target', 1)), lambda v: run(lambda: sp._extended_community(f'target:1:{v}'))),
+        ('extLocalA32', ext(('target-asn4', 1)), lambda v: run(lambda: sp._extended_community(f'target:70000:{v}'))),
+        ('extIpOctet', [Cmp(sp._ip, 'number > _SIZE_B', 'refuse>', '_SIZE_B'), Has(sp._ip, 'part.isdigit()', lo=True)], lambda v: run(lambda: sp._extended_community(f'target:1.2.3.{v}:1'))),
+        ('extLocalIp', ext(('target4', 1)), lambda v: run(lambda: sp._extended_community(f'target:1.2.3.4:{v}'))),
+        ('l2infoEncaps', ext(('l2info', 0)), lambda v: run(lambda: sp._extended_community(f'l2info:{v}:0:1500:111'))),
+        ('l2infoControl', ext(('l2info', 1)), lambda v: run(lambda: sp._extended_community(f'l2info:19:{v}:1500:111'))),
+        ('l2infoMtu', ext(('l2info', 2)), lambda v: run(lambda: sp._extended_community(f'l2info:19:0:{v}:111'))),
+        ('l2infoPref', ext(('l2info', 3)), lambda v: run(lambda: sp._extended_community(f'l2info:19:0:1500:{v}'))),
+        ('med', [Cmp(MED.from_int, '0 <= med <= 4294967295', 'accept<=', '4294967295'), isdigit_value(sp.med)], lambda v: run(lambda: sp.med(tok(str(v))))),
+        ('localPref', [Cmp(LocalPreference.from_int, '0 <= localpref <= 4294967295', 'accept<=', '4294967295'), isdigit_value(sp.local_preference)], lambda v: run(lambda: sp.local_preference(tok(str(v))))),
+        ('aigp', [Cmp(sp.aigp, 'number > AIGP_MAX', 'refuse>', 'AIGP_MAX'), Cmp(sp.aigp, 'number < 0', 'refuse<0')], lambda v: run(lambda: sp.aigp(tok(str(v))))),
+        ('attrCode', [Cmp(sp.attribute, 'code_int > ATTRIBUTE_BYTE_MAX', 'refuse>', 'ATTRIBUTE_BYTE_MAX'), Has(sp.attribute, "code.startswith('0x')", lo=True)], lambda v: run(lambda: sp.attribute(tok('[', hex(v), '0xc0', '0xdeadbeef', ']')))),
+        ('attrFlag', [Cmp(sp.attribute, 'flag_int > ATTRIBUTE_BYTE_MAX', 'refuse>', 'ATTRIBUTE_BYTE_MAX'), Has(sp.attribute, "flag.startswith('0x')", lo=True)], lambda v: run(lambda: sp.attribute(tok('[', '0x99', hex(v), '0xdeadbeef', ']')))),
+    ]
+    for name in ('attrLen', 'communitiesCount', 'largeCommunitiesCount', 'extCommunitiesCount', 'clusterCount'):
+        u = units[name]
+        ev = [count_call[name], Cmp(sp._sendable, 'size > ATTRIBUTE_VALUE_MAX', 'refuse>', f'ATTRIBUTE_VALUE_MAX // {u}'), Builtin('a length is not negative', 0, value_max // u)]
+        rows.append((name, ev, (lambda u: lambda v: v >= 0 and run(lambda: sp._sendable('x', v * u)))(u)))
+    rows += [
+        ('label', [Cmp(mpls.label, 'lbl > Labels.MAX', 'refuse>', 'Labels.MAX'), Cmp(mpls.label, 'lbl < 0', 'refuse<0')], lambda v: run(lambda: mpls.label(tok(str(v))))),
+        ('labelInner', [Cmp(mpls.label, 'lbl > Labels.MAX', 'refuse>', 'Labels.MAX'), Cmp(mpls.label, 'lbl < 0', 'refuse<0')], lambda v: run(lambda: mpls.label(tok('[', str(v), '7', ']')))),
+        ('rdAdmin', [Cmp(rd, 'number < pow(2, 32)', 'accept<', 'pow(2, 32)'), Has(rd, 'suffix < pow(2, 16)'), Has(rd, 'prefix.isdigit()', lo=True)], lambda v: run(lambda: rd(tok(f'{v}:1')))),
+        ('rdAssignedA16', [Cmp(rd, 'suffix < pow(2, 32)', 'accept<', 'pow(2, 32)'), Has(rd, 'number < pow(2, 16)'), Has(rd, 'assigned.isdigit()', lo=True)], lambda v: run(lambda: rd(tok(f'1:{v}')))),
+        ('rdAssignedA32', [Cmp(rd, 'suffix < pow(2, 16)', 'accept<', 'pow(2, 16)'), Has(rd, 'assigned.isdigit()', lo=True)], lambda v: run(lambda: rd(tok(f'70000:{v}')))),
+        ('rdIpOctet', [Cmp(rd, 'int(_) <= 255', 'accept<=', '255'), Has(rd, '_.isdigit()', lo=True)], lambda v: run(lambda: rd(tok(f'1.2.3.{v}:1')))),
+        ('rdAssignedIp', [Cmp(rd, 'suffix >= pow(2, 16)', 'refuse>=', 'pow(2, 16)'), Has(rd, 'assigned.isdigit()', lo=True)], lambda v: run(lambda: rd(tok(f'1.2.3.4:{v}')))),
+        ('pathInfo', [Cmp(sp.path_information, 'number > _SIZE_L', 'refuse>', '_SIZE_L'), Has(sp.path_information, 'pi.isdigit()', lo=True)], lambda v: run(lambda: sp.path_information(tok(str(v))))),
+        ('pathInfoOctet', [Builtin('PathInfo.make_from_ip -> bytes([int(octet)])', 0, 255)], lambda v: run(lambda: sp.path_information(tok(f'1.2.3.{v}')))),
+        ('mask4', mask('ipv4'), lambda v: run(lambda: sp.prefix(tok(f'0.0.0.0/{v}')))),
+        ('mask6', mask('ipv6'), lambda v: run(lambda: sp.prefix(tok(f'::/{v}')))),
+        ('vplsEndpoint', [Cmp(vp.vpls_endpoint, 'number > VPLS_PARAM_MAX', 'refuse>', 'VPLS_PARAM_MAX'), Cmp(vp.vpls_endpoint, 'number < 0', 'refuse<0')], lambda v: run(lambda: vp.vpls_endpoint(tok(str(v))))),
+        ('vplsOffset', [Cmp(vp.vpls_offset, 'number > VPLS_PARAM_MAX', 'refuse>', 'VPLS_PARAM_MAX'), Cmp(vp.vpls_offset, 'number < 0', 'refuse<0')], lambda v: run(lambda: vp.vpls_offset(tok(str(v))))),
+        ('vplsSize', [Cmp(vp.vpls_size, 'number > VPLS_PARAM_MAX', 'refuse>', 'VPLS_PARAM_MAX'), Cmp(vp.vpls_size, 'number < 0', 'refuse<0')], lambda v: run(lambda: vp.vpls_size(tok(str(v))))),
+        ('vplsBase', [Cmp(vp.vpls_base, 'number > VPLS_LABEL_MAX', 'refuse>', 'VPLS_LABEL_MAX'), Cmp(vp.vpls_base, 'number < 0', 'refuse<0')], lambda v: run(lambda: vp.vpls_base(tok(str(v))))),
+        ('flowProtocol', flow(nflow.FlowIPProtocol, resource), lambda v: run(lambda: fp.protocol(tok(str(v))))),
+        ('flowNextHeader', flow(nflow.FlowNextHeader, resource), lambda v: run(lambda: fp.next_header(tok(str(v))))),
+        ('flowPort', flow(nflow.FlowAnyPort, resource), lambda v: run(lambda: fp.any_port(tok(str(v))))),
+        ('flowDstPort', flow(nflow.FlowDestinationPort, resource), lambda v: run(lambda: fp.destination_port(tok(str(v))))),
+        ('flowSrcPort', flow(nflow.FlowSourcePort, resource), lambda v: run(lambda: fp.source_port(tok(str(v))))),
+        ('flowIcmpType', flow(nflow.FlowICMPType, resource), lambda v: run(lambda: fp.icmp_type(tok(str(v))))),
+        ('flowIcmpCode', flow(nflow.FlowICMPCode, resource), lambda v: run(lambda: fp.icmp_code(tok(str(v))))),
+        ('flowTcpFlags', flow(nflow.FlowTCPFlag, resource), lambda v: run(lambda: fp.tcp_flags(tok(str(v))))),
+        ('flowPacketLength', flow(nflow.FlowPacketLength, [Cmp(nflow.packet_length, 'number > MAX_PACKET_LENGTH', 'refuse>', 'MAX_PACKET_LENGTH')]), lambda v: run(lambda: fp.packet_length(tok(str(v))))),
+        ('flowDscp', flow(nflow.FlowDSCP, [Cmp(nflow.dscp_value, 'number > MAX_DSCP_VALUE', 'refuse>', 'MAX_DSCP_VALUE'), Cmp(nflow.dscp_value, 'number < 0', 'refuse<0')]), lambda v: run(lambda: fp.dscp(tok(str(v))))),
+        ('flowTrafficClass', flow(nflow.FlowTrafficClass, [Cmp(nflow.class_value, 'number > MAX_TRAFFIC_CLASS', 'refuse>', 'MAX_TRAFFIC_CLASS'), Cmp(nflow.class_value, 'number < 0', 'refuse<0')]), lambda v: run(lambda: fp.traffic_class(tok(str(v))))),
+        ('flowFragment', flow(nflow.FlowFragment, resource), lambda v: run(lambda: fp.fragment(tok(str(v))))),
+        ('flowLabel', flow(nflow.FlowFlowLabel, [Cmp(nflow.label_value, 'number > MAX_FLOW_LABEL', 'refuse>', 'MAX_FLOW_LABEL'), Cmp(nflow.label_value, 'number < 0', 'refuse<0')]), lambda v: run(lambda: fp.flow_label(tok(str(v))))),
+        ('flowMask4', flow_mask('_prefix_bounds(int(netmask), 32)'), lambda v: run(lambda: fp.destination(tok(f'0.0.0.0/{v}')))),
+        ('flowMask6', flow_mask('_prefix_bounds(int(netmask), 128)'), lambda v: run(lambda: fp.destination(tok(f'::/{v}')))),
+        # swept with a prefix length of 128 (`::/128/<offset>`): `offset >= netmask` refuses from 128 on
+        ('flowOffset6', [Has(fp.destination, '_prefix_bounds(int(netmask), 128, int(offset))'), Cmp(fp._prefix_bounds, 'offset >= netmask', 'refuse>=', 'netmask', {'netmask': 128}), Cmp(fp._prefix_bounds, 'offset < 0', 'refuse<0')], lambda v: run(lambda: fp.destination(tok(f'::/128/{v}')))),
+        ('redirectAdmin', [Has(fp.redirect, 'ASN4.validate(asn)'), Cmp(ASN4.validate, '0 <= value <= ASN.MAX_4BYTE', 'accept<=', 'ASN.MAX_4BYTE'), Has(fp.redirect, 'prefix.isdigit()', lo=True)], lambda v: run(lambda: fp.redirect(tok(f'{v}:1')))),
+        ('redirectLocalA16', [Cmp(fp.redirect, 'nn_int >= pow(2, LOCAL_ADMIN_32_BITS)', 'refuse>=', 'pow(2, LOCAL_ADMIN_32_BITS)'), Has(fp.redirect, 'asn > ASN.MAX_2BYTE'), Has(fp.redirect, 'suffix.isdigit()', lo=True)], lambda v: run(lambda: fp.redirect(tok(f'1:{v}')))),
+        ('redirectLocalA32', [Cmp(fp.redirect, 'nn_int >= pow(2, LOCAL_ADMIN_16_BITS)', 'refuse>=', 'pow(2, LOCAL_ADMIN_16_BITS)'), Has(fp.redirect, 'suffix.isdigit()', lo=True)], lambda v: run(lambda: fp.redirect(tok(f'70000:{v}')))),
+        ('markDscp', [Cmp(fp.mark, 'dscp_value > DSCP_MAX_VALUE', 'refuse>', 'DSCP_MAX_VALUE'), Cmp(fp.mark, 'dscp_value < 0', 'refuse<0'), isdigit_value(fp.mark)], lambda v: run(lambda: fp.mark(tok(str(v))))),
+    ]
+
+    out_rows: list[tuple[str, int, int]] = []
+    origins: list[tuple[str, str]] = []
+    from_source = 0
+    for name, evidence, probe in rows:
+        los: list[int] = []
+        his: list[int] = []
+        builtin_only = True
+        for e in evidence:
+            if isinstance(e, Builtin):
+                los.append(e.lo)
+                his.append(e.hi)
+                continue
+            v = e.value()
+            if v is None:
+                continue
+            (los if v[0] == 'lo' else his).append(v[1])
+            if v[0] == 'hi':
+                builtin_only = False
+        if not his or not los:
+            raise Translator(f'{name}: no {"upper" if not his else "lower"} bound found in the source')
+        lo, hi = max(los), min(his)
+        if not builtin_only:
+            from_source += 1
+        # the reading of the source against the live function
+        for v, want in ((lo - 1, False), (lo, True), (hi, True), (hi + 1, False)):
+            got = probe(v)
+            if got != want:
+                raise Translator(f'{name}: the source says [{lo}, {hi}] and the parser {"accepts" if got else "refuses"} {v}')
+        out_rows.append((name, lo, hi))
+        origins.append((name, ' ; '.join(e.origin() for e in evidence)))
 
     # widest value each FlowSpec component class encodes (VALUE_SIZES), in bytes
     comp = {
-        'flowProtocol': nflow.FlowIPProtocol,
-        'flowNextHeader': nflow.FlowNextHeader,
-        'flowPort': nflow.FlowAnyPort,
-        'flowDstPort': nflow.FlowDestinationPort,
-        'flowSrcPort': nflow.FlowSourcePort,
-        'flowIcmpType': nflow.FlowICMPType,
-        'flowIcmpCode': nflow.FlowICMPCode,
-        'flowTcpFlags': nflow.FlowTCPFlag,
-        'flowPacketLength': nflow.FlowPacketLength,
-        'flowDscp': nflow.FlowDSCP,
-        'flowTrafficClass': nflow.FlowTrafficClass,
-        'flowFragment': nflow.FlowFragment,
-        'flowLabel': nflow.FlowFlowLabel,
-    }
-    widths = [(name, max(k.VALUE_SIZES)) for name, k in comp.items()]
+        'flowProtocol': nflow.FlowIPProtocol, 'flowNextHeader': nflow.FlowNextHeader, 'flowPort': nflow.FlowAnyPort,
+        'flowDstPort': nflow.FlowDestinationPort, 'flowSrcPort': nflow.FlowSourcePort, 'flowIcmpType': nflow.FlowICMPType,
+        'flowIcmpCode': nflow.FlowICMPCode, 'flowTcpFlags': nflow.FlowTCPFlag, 'flowPacketLength': nflow.FlowPacketLength,
+        'flowDscp': nflow.FlowDSCP, 'flowTrafficClass': nflow.FlowTrafficClass, 'flowFragment': nflow.FlowFragment, 'flowLabel': nflow.FlowFlowLabel,
+    }  # fmt: skip
+    widths = [(n, max(k.VALUE_SIZES)) for n, k in comp.items()]
 
+    esc = lambda s: s.replace('\\', '\\\\').replace('"', '\\"')  # noqa: E731
     lean = f'''namespace Exa.Generated.FieldLimits
 
-/-- (field, largest value the text parser of /repo lets through) -/
-def parserMax : List (String × Nat) :=
-  [{', '.join(f'("{n}", {v})' for n, v in rows)}]
+/-- (field, smallest, largest) plain decimal value the text parser of /repo lets through for the field —
+    every bound read from a comparison of the parser source (see `boundOrigin`), cross-checked against
+    the live parser at both ends. {len(out_rows)} fields, {from_source} bounded by comparisons in the source,
+    {len(out_rows) - from_source} by the C library / interpreter only. -/
+def parserBounds : List (String × Int × Int) :=
+  [{', '.join(f'("{n}", {lo}, {hi})' for n, lo, hi in out_rows)}]
+
+/-- where each bound was read -/
+def boundOrigin : List (String × String) :=
+  [{', '.join(f'("{n}", "{esc(o)}")' for n, o in origins)}]
+
+/-- number of fields whose upper bound is a comparison in the parser source -/
+def boundedBySource : Nat := {from_source}
+
+/-- `ATTRIBUTE_VALUE_MAX` (static/parser.py `_sendable`) and the bytes one list element adds -/
+def attributeValueMax : Nat := {value_max}
+def countUnits : List (String × Nat) := [{', '.join(f'("{n}", {u})' for n, u in units.items())}]
 
 /-- (FlowSpec component field, widest value in bytes the component class encodes: max VALUE_SIZES) -/
 def flowWidth : List (String × Nat) :=
